@@ -78,6 +78,10 @@ def run(ctx):
             ctx.undecided("C16-token-tables", key, "cannot follow the printer on this skeleton (%s)" % t[1], where_of(vf))
             continue
         txt, holes = printtables.fill(t)
+        if any(not (type(getattr(h, "value", None)).__name__ == "Tok" and str(getattr(h.value, "tag", getattr(h.value, "name", ""))).startswith("x")) for h in holes):
+            # a part of the text that is not one of the skeleton's own leaves: text the printer model does not know
+            ctx.undecided("C16-token-tables", key, "the printed text of this skeleton has parts that are not known text (%r)" % (t,), where_of(vf))
+            continue
         toks = lexrun.lex(fb, txt)
         if toks and toks[-1][0] == "stuck":
             ctx.undecided("C16-token-tables", key, "cannot follow the lexer on the printed text %r (%s)" % (txt, toks[-1][1]), where_of(vf))
